@@ -33,7 +33,7 @@ MANY_TYPES = TYPES + ["mRNA", "ncRNA", "tRNA", "intron", "UTR"]
 
 def budget(tier):
     if tier == "quick":
-        return {"runs": 2400, "wall": 50, "chunk": 6}
+        return {"runs": 2400, "wall": 120, "chunk": 6}
     return {"runs": 60000, "wall": 1500, "chunk": 8}
 
 
